@@ -514,4 +514,599 @@ theorem renderDelta_correct (rgb su legacy : Bool) (p n : Style) (hn : n.ulStyle
     rw [part_uls p.ulStyle n.ulStyle _ rfl hn]
     rfl
 
+/-! ## Colours, bits and `shown` -/
+
+theorem params_indexColor (i : Nat) (h : i < 256) : params (indexColor i) = [i] := by
+  simp only [params, isIndexed, indexColor, indexedBit, Gen.Palette.indexedShift]
+  have h1 : (i + 2 ^ 24) / 2 ^ 24 = 1 := by omega
+  have h2 : (i + 2 ^ 24) % 256 = i := by omega
+  simp [h1, h2]
+
+theorem params_rgbColor (r g b : Nat) (hr : r < 256) (hg : g < 256) (hb : b < 256) :
+    params (rgbColor r g b) = [r, g, b] := by
+  simp only [params, isIndexed, isRGB, rgbColor, indexedBit, rgbBit, Gen.Palette.indexedShift, Gen.Palette.rgbShift,
+    chanR, chanG, chanB]
+  have h1 : (r * 65536 + g * 256 + b + 2 ^ 25) / 2 ^ 24 = 2 := by omega
+  have h2 : (r * 65536 + g * 256 + b + 2 ^ 25) / 2 ^ 25 = 1 := by omega
+  have h3 : (r * 65536 + g * 256 + b + 2 ^ 25) / 65536 % 256 = r := by omega
+  have h4 : (r * 65536 + g * 256 + b + 2 ^ 25) / 256 % 256 = g := by omega
+  have h5 : (r * 65536 + g * 256 + b + 2 ^ 25) % 256 = b := by omega
+  simp [h1, h2, h3, h4, h5]
+
+theorem col_of_nil (c : Color) (h : params c = []) : col c = .default := by unfold col; rw [h]
+theorem col_of_idx (c : Color) (i : Nat) (h : params c = [i]) : col c = .idx i := by unfold col; rw [h]
+theorem col_of_rgb (c : Color) (r g b : Nat) (h : params c = [r, g, b]) : col c = .rgb r g b := by unfold col; rw [h]
+theorem col_indexColor (i : Nat) (h : i < 256) : col (indexColor i) = .idx i := col_of_idx _ _ (params_indexColor i h)
+theorem col_rgbColor (r g b : Nat) (hr : r < 256) (hg : g < 256) (hb : b < 256) :
+    col (rgbColor r g b) = .rgb r g b := col_of_rgb _ _ _ _ (params_rgbColor r g b hr hg hb)
+theorem col_zero : col 0 = .default := col_of_nil 0 (by decide)
+
+
+theorem tb_set (m j i : Nat) : (setBits m (2 ^ i)).testBit j = (m.testBit j || decide (i = j)) := by
+  rw [setBits, Nat.testBit_or, Nat.testBit_two_pow]
+theorem tb_clear (m j i : Nat) : (clearBits m (2 ^ i)).testBit j = (m.testBit j && !decide (i = j)) := by
+  rw [clearBits, Nat.testBit_xor, Nat.testBit_and, Nat.testBit_two_pow]
+  cases m.testBit j <;> cases decide (i = j) <;> rfl
+theorem tb_set2 (m j : Nat) : (setBits m 2).testBit j = (m.testBit j || decide (1 = j)) := tb_set m j 1
+theorem tb_set4 (m j : Nat) : (setBits m 4).testBit j = (m.testBit j || decide (2 = j)) := tb_set m j 2
+theorem tb_set8 (m j : Nat) : (setBits m 8).testBit j = (m.testBit j || decide (3 = j)) := tb_set m j 3
+theorem tb_set16 (m j : Nat) : (setBits m 16).testBit j = (m.testBit j || decide (4 = j)) := tb_set m j 4
+theorem tb_set32 (m j : Nat) : (setBits m 32).testBit j = (m.testBit j || decide (5 = j)) := tb_set m j 5
+theorem tb_set64 (m j : Nat) : (setBits m 64).testBit j = (m.testBit j || decide (6 = j)) := tb_set m j 6
+theorem tb_set128 (m j : Nat) : (setBits m 128).testBit j = (m.testBit j || decide (7 = j)) := tb_set m j 7
+theorem tb_clear2 (m j : Nat) : (clearBits m 2).testBit j = (m.testBit j && !decide (1 = j)) := tb_clear m j 1
+theorem tb_clear4 (m j : Nat) : (clearBits m 4).testBit j = (m.testBit j && !decide (2 = j)) := tb_clear m j 2
+theorem tb_clear8 (m j : Nat) : (clearBits m 8).testBit j = (m.testBit j && !decide (3 = j)) := tb_clear m j 3
+theorem tb_clear16 (m j : Nat) : (clearBits m 16).testBit j = (m.testBit j && !decide (4 = j)) := tb_clear m j 4
+theorem tb_clear32 (m j : Nat) : (clearBits m 32).testBit j = (m.testBit j && !decide (5 = j)) := tb_clear m j 5
+theorem tb_clear64 (m j : Nat) : (clearBits m 64).testBit j = (m.testBit j && !decide (6 = j)) := tb_clear m j 6
+theorem tb_clear128 (m j : Nat) : (clearBits m 128).testBit j = (m.testBit j && !decide (7 = j)) := tb_clear m j 7
+
+theorem has2 (m : Nat) : has m 2 = m.testBit 1 := has_pow m 1
+theorem has4 (m : Nat) : has m 4 = m.testBit 2 := has_pow m 2
+theorem has8 (m : Nat) : has m 8 = m.testBit 3 := has_pow m 3
+theorem has16 (m : Nat) : has m 16 = m.testBit 4 := has_pow m 4
+theorem has32 (m : Nat) : has m 32 = m.testBit 5 := has_pow m 5
+theorem has64 (m : Nat) : has m 64 = m.testBit 6 := has_pow m 6
+theorem has128 (m : Nat) : has m 128 = m.testBit 7 := has_pow m 7
+
+theorem shown_set_bold (s : Style) :
+    shown { s with attr := setBits s.attr SgrCases.AttrBold } = { shown s with bold := true } := by
+  simp [shown, SgrCases.AttrBold, SgrCases.AttrDim, SgrCases.AttrItalic, SgrCases.AttrBlink, SgrCases.AttrReverse,
+    SgrCases.AttrInvisible, SgrCases.AttrStrikethrough, has2, has4, has8, has16, has32, has64, has128,
+    tb_set2, tb_set4, tb_set8, tb_set16, tb_set32, tb_set64, tb_set128,
+    tb_clear2, tb_clear4, tb_clear8, tb_clear16, tb_clear32, tb_clear64, tb_clear128]
+theorem shown_clear22 (s : Style) :
+    shown { s with attr := clearBits (clearBits s.attr SgrCases.AttrBold) SgrCases.AttrDim } = { shown s with bold := false, dim := false } := by
+  simp [shown, SgrCases.AttrBold, SgrCases.AttrDim, SgrCases.AttrItalic, SgrCases.AttrBlink, SgrCases.AttrReverse,
+    SgrCases.AttrInvisible, SgrCases.AttrStrikethrough, has2, has4, has8, has16, has32, has64, has128,
+    tb_set2, tb_set4, tb_set8, tb_set16, tb_set32, tb_set64, tb_set128,
+    tb_clear2, tb_clear4, tb_clear8, tb_clear16, tb_clear32, tb_clear64, tb_clear128]
+
+theorem shown_simple_zero (s : Style) : shown (simple 0 s) = TStyle.reset := by
+  simp [simple, shown, TStyle.reset, col_zero, SgrCases.UnderlineOff, has]
+
+theorem shown_simple (s : Style) (p : Nat) (hp : p ∈ soloCodes) (h4 : p ≠ 4) :
+    shown (simple p s) = sgrSimple (shown s) p := by
+  simp only [soloCodes, List.mem_cons, List.not_mem_nil, or_false] at hp
+  rcases hp with rfl | rfl | rfl | rfl | rfl | rfl | rfl | rfl | rfl | rfl | rfl | rfl | rfl | rfl | rfl | rfl | rfl | rfl | rfl | rfl | rfl | rfl | rfl | rfl | rfl | rfl | rfl | rfl | rfl | rfl | rfl | rfl | rfl | rfl | rfl | rfl | rfl | rfl | rfl | rfl | rfl | rfl | rfl | rfl | rfl | rfl | rfl | rfl | rfl | rfl
+  all_goals first
+    | exact absurd rfl h4
+    | simp [simple, sgrSimple, shown, SgrCases.AttrBold, SgrCases.AttrDim, SgrCases.AttrItalic, SgrCases.AttrBlink,
+        SgrCases.AttrReverse, SgrCases.AttrInvisible, SgrCases.AttrStrikethrough, SgrCases.UnderlineOff,
+        has2, has4, has8, has16, has32, has64, has128,
+        tb_set2, tb_set4, tb_set8, tb_set16, tb_set32, tb_set64, tb_set128,
+        tb_clear2, tb_clear4, tb_clear8, tb_clear16, tb_clear32, tb_clear64, tb_clear128,
+        col_indexColor, col_zero, u8]
+
+/-! ## Evaluating the consumers on the producers' range -/
+
+theorem sgr_solo (t : TStyle) (p : Nat) (h38 : p ≠ 38) (h48 : p ≠ 48) (h58 : p ≠ 58) (h4 : p ≠ 4) :
+    Spec.sgr t [[p]] = sgrSimple t p := by
+  simp [Spec.sgr, sgrStep, h38, h48, h58, h4]
+
+theorem int_solo (cfg : Cfg) (s : Style) (p : Nat) (hl : p ∈ cfg.labels)
+    (h38 : p ≠ 38) (h48 : p ≠ 48) (h58 : p ≠ 58) (h4 : p ≠ 4) :
+    intSgr cfg s [[p]] = .ok (simple p s) := by
+  simp [intSgr, intLoop, intOne, idx, hl, h38, h48, h58, h4]
+
+theorem int_empty (cfg : Cfg) (s : Style) (hl : 0 ∈ cfg.labels) :
+    intSgr cfg s [] = .ok (simple 0 s) := by
+  simp [intSgr, intLoop, intOne, idx, hl]
+
+theorem int_ul1 (cfg : Cfg) (s : Style) (hl : 4 ∈ cfg.labels) (ha : cfg.accepts 4 1 = true) :
+    intSgr cfg s [[4]] = .ok { s with ulStyle := SgrCases.UnderlineSingle } := by
+  simp [intSgr, intLoop, intOne, idx, hl, ulCase, ha]
+
+theorem int_ul2 (cfg : Cfg) (s : Style) (n : Nat) (hl : 4 ∈ cfg.labels) (ha : cfg.accepts 4 2 = true)
+    (hs : n ∈ cfg.ulSubs) :
+    intSgr cfg s [[4, n]] = .ok { s with ulStyle := ulConst n } := by
+  simp [intSgr, intLoop, intOne, idx, hl, ulCase, ha, hs]
+
+def setCol (p : Nat) (s : Style) (c : Color) : Style :=
+  if p = 38 then { s with fg := c } else if p = 48 then { s with bg := c } else { s with ul := c }
+
+theorem int_idx (cfg : Cfg) (s : Style) (p n : Nat) (hp : p = 38 ∨ p = 48 ∨ p = 58)
+    (hl : p ∈ cfg.labels) (ha : cfg.accepts p 3 = true) :
+    intSgr cfg s [[p, 5, n]] = .ok (setCol p s (indexColor (u8 n))) := by
+  rcases hp with rfl | rfl | rfl <;>
+    simp [intSgr, intLoop, intOne, idx, hl, extColour, ha, setCol]
+
+theorem int_rgb (cfg : Cfg) (s : Style) (p r g b : Nat) (hp : p = 38 ∨ p = 48 ∨ p = 58)
+    (hl : p ∈ cfg.labels) (ha : cfg.accepts p 5 = true) :
+    intSgr cfg s [[p, 2, r, g, b]] = .ok (setCol p s (rgbColor (u8 r) (u8 g) (u8 b))) := by
+  rcases hp with rfl | rfl | rfl <;>
+    simp [intSgr, intLoop, intOne, idx, hl, extColour, ha, setCol]
+
+theorem int_idx_legacy (cfg : Cfg) (s : Style) (p n : Nat) (hp : p = 38 ∨ p = 48 ∨ p = 58)
+    (hl : p ∈ cfg.labels) (ha : cfg.accepts p 1 = true) :
+    intSgr cfg s [[p], [5], [n]] = .ok (setCol p s (indexColor (u8 n))) := by
+  rcases hp with rfl | rfl | rfl <;>
+    simp [intSgr, intLoop, intOne, idx, idx2, hl, extColour, ha, setCol]
+
+theorem int_rgb_legacy (cfg : Cfg) (s : Style) (p r g b : Nat) (hp : p = 38 ∨ p = 48 ∨ p = 58)
+    (hl : p ∈ cfg.labels) (ha : cfg.accepts p 1 = true) :
+    intSgr cfg s [[p], [2], [r], [g], [b]] = .ok (setCol p s (rgbColor (u8 r) (u8 g) (u8 b))) := by
+  rcases hp with rfl | rfl | rfl <;>
+    simp [intSgr, intLoop, intOne, idx, idx2, hl, extColour, ha, setCol]
+
+/-- Everything a producer can write is handled: every solo code and 0 has a `case`, 38/48/58 accept the
+    colon forms with 3 and 5 sub-parameters, 4 accepts none and one sub-parameter 0..5. -/
+def covers (cfg : Cfg) : Bool :=
+  cfg.labels.contains 0 && soloCodes.all (fun p => cfg.labels.contains p) &&
+  [38, 48, 58].all (fun p => cfg.labels.contains p && cfg.accepts p 3 && cfg.accepts p 5) &&
+  cfg.accepts 4 1 && cfg.accepts 4 2 && [0, 1, 2, 3, 4, 5].all (fun k => cfg.ulSubs.contains k)
+
+/-- … and the legacy semicolon forms of foreground and background. -/
+def coversLegacy (cfg : Cfg) : Bool := [38, 48].all (fun p => cfg.accepts p 1)
+
+structure Covers (cfg : Cfg) : Prop where
+  zero : 0 ∈ cfg.labels
+  solo : ∀ p ∈ soloCodes, p ∈ cfg.labels
+  ext : ∀ p, p = 38 ∨ p = 48 ∨ p = 58 → p ∈ cfg.labels ∧ cfg.accepts p 3 = true ∧ cfg.accepts p 5 = true
+  ul1 : cfg.accepts 4 1 = true
+  ul2 : cfg.accepts 4 2 = true
+  subs : ∀ n, n ≤ 5 → n ∈ cfg.ulSubs
+
+theorem covers_iff (cfg : Cfg) (h : covers cfg = true) : Covers cfg := by
+  simp only [covers, Bool.and_eq_true, List.all_eq_true, List.contains_iff_mem] at h
+  obtain ⟨⟨⟨⟨⟨h0, hs⟩, he⟩, h1⟩, h2⟩, hu⟩ := h
+  refine ⟨h0, hs, ?_, h1, h2, ?_⟩
+  · intro p hp
+    have := he p (by rcases hp with rfl | rfl | rfl <;> simp)
+    exact ⟨this.1.1, this.1.2, this.2⟩
+  · intro n hn
+    exact hu n (by
+      have : n = 0 ∨ n = 1 ∨ n = 2 ∨ n = 3 ∨ n = 4 ∨ n = 5 := by omega
+      rcases this with rfl | rfl | rfl | rfl | rfl | rfl <;> simp)
+
+theorem emittable_cases (q : Seq) (h : emittable q = true) :
+    q = [] ∨ (∃ p, p ∈ soloCodes ∧ q = [[p]]) ∨ (∃ n, n ≤ 5 ∧ q = [[4, n]]) ∨
+    (∃ p n, (p = 38 ∨ p = 48 ∨ p = 58) ∧ n < 256 ∧ q = [[p, 5, n]]) ∨
+    (∃ p r g b, (p = 38 ∨ p = 48 ∨ p = 58) ∧ r < 256 ∧ g < 256 ∧ b < 256 ∧ q = [[p, 2, r, g, b]]) := by
+  unfold emittable at h
+  split at h
+  · exact Or.inl rfl
+  · exact Or.inr (Or.inl ⟨_, by simpa using h, rfl⟩)
+  · exact Or.inr (Or.inr (Or.inl ⟨_, by simpa using h, rfl⟩))
+  · simp [isExt] at h
+    exact Or.inr (Or.inr (Or.inr (Or.inl ⟨_, _, or_assoc.mp h.1, h.2, rfl⟩)))
+  · simp [isExt] at h
+    exact Or.inr (Or.inr (Or.inr (Or.inr ⟨_, _, _, _, or_assoc.mp h.1.1.1, h.1.1.2, h.1.2, h.2, rfl⟩)))
+  · simp at h
+
+theorem emittableLegacy_cases (q : Seq) (h : emittableLegacy q = true) :
+    emittable q = true ∨
+    (∃ p n, (p = 38 ∨ p = 48) ∧ n < 256 ∧ q = [[p], [5], [n]]) ∨
+    (∃ p r g b, (p = 38 ∨ p = 48) ∧ r < 256 ∧ g < 256 ∧ b < 256 ∧ q = [[p], [2], [r], [g], [b]]) := by
+  unfold emittableLegacy at h
+  rw [Bool.or_eq_true] at h
+  rcases h with h | h
+  · exact Or.inl h
+  · split at h
+    · simp at h
+      exact Or.inr (Or.inl ⟨_, _, h.1, h.2, rfl⟩)
+    · simp at h
+      exact Or.inr (Or.inr ⟨_, _, _, _, h.1.1.1, h.1.1.2, h.1.2, h.2, rfl⟩)
+    · simp at h
+
+theorem u8_lt (n : Nat) (h : n < 256) : u8 n = n := by unfold u8; omega
+
+theorem shown_setCol (p : Nat) (hp : p = 38 ∨ p = 48 ∨ p = 58) (s : Style) (c : Color) :
+    shown (setCol p s c) = setExt (shown s) p (col c) := by
+  rcases hp with rfl | rfl | rfl <;> rfl
+
+theorem spec_idx (p n : Nat) (hp : p = 38 ∨ p = 48 ∨ p = 58) (t : TStyle) :
+    Spec.sgr t [[p, 5, n]] = setExt t p (.idx n) := by
+  rcases hp with rfl | rfl | rfl <;> rfl
+theorem spec_rgb (p r g b : Nat) (hp : p = 38 ∨ p = 48 ∨ p = 58) (t : TStyle) :
+    Spec.sgr t [[p, 2, r, g, b]] = setExt t p (.rgb r g b) := by
+  rcases hp with rfl | rfl | rfl <;> rfl
+theorem spec_idx_legacy (p n : Nat) (hp : p = 38 ∨ p = 48 ∨ p = 58) (t : TStyle) :
+    Spec.sgr t [[p], [5], [n]] = setExt t p (.idx n) := by
+  rcases hp with rfl | rfl | rfl <;> rfl
+theorem spec_rgb_legacy (p r g b : Nat) (hp : p = 38 ∨ p = 48 ∨ p = 58) (t : TStyle) :
+    Spec.sgr t [[p], [2], [r], [g], [b]] = setExt t p (.rgb r g b) := by
+  rcases hp with rfl | rfl | rfl <;> rfl
+
+theorem ulConst_le (n : Nat) (h : n ≤ 5) : ulConst n = n := by
+  have : n = 0 ∨ n = 1 ∨ n = 2 ∨ n = 3 ∨ n = 4 ∨ n = 5 := by omega
+  rcases this with rfl | rfl | rfl | rfl | rfl | rfl <;> decide
+
+theorem solo_ne (p : Nat) (hp : p ∈ soloCodes) : p ≠ 38 ∧ p ≠ 48 ∧ p ≠ 58 := by
+  refine ⟨?_, ?_, ?_⟩ <;> (intro h; subst h; revert hp; decide)
+
+theorem int_refines (cfg : Cfg) (hc : Covers cfg) (s : Style) (q : Seq) (hq : emittable q = true) :
+    ∃ s', intSgr cfg s q = .ok s' ∧ shown s' = Spec.sgr (shown s) q := by
+  rcases emittable_cases q hq with rfl | ⟨p, hp, rfl⟩ | ⟨n, hn, rfl⟩ | ⟨p, n, hp, hn, rfl⟩ | ⟨p, r, g, b, hp, hr, hg, hb, rfl⟩
+  · exact ⟨_, int_empty cfg s hc.zero, shown_simple_zero s⟩
+  · by_cases h4 : p = 4
+    · subst h4
+      exact ⟨_, int_ul1 cfg s (hc.solo 4 hp) hc.ul1, rfl⟩
+    · obtain ⟨h38, h48, h58⟩ := solo_ne p hp
+      refine ⟨_, int_solo cfg s p (hc.solo p hp) h38 h48 h58 h4, ?_⟩
+      rw [shown_simple s p hp h4, sgr_solo _ p h38 h48 h58 h4]
+  · refine ⟨_, int_ul2 cfg s n (hc.solo 4 (by decide)) hc.ul2 (hc.subs n hn), ?_⟩
+    rw [ulConst_le n hn]
+    simp [Spec.sgr, sgrStep, hn, shown]
+  · obtain ⟨hl, h3, _⟩ := hc.ext p hp
+    refine ⟨_, int_idx cfg s p n hp hl h3, ?_⟩
+    rw [shown_setCol p hp, u8_lt n hn, col_indexColor n hn, spec_idx p n hp]
+  · obtain ⟨hl, _, h5⟩ := hc.ext p hp
+    refine ⟨_, int_rgb cfg s p r g b hp hl h5, ?_⟩
+    rw [shown_setCol p hp, u8_lt r hr, u8_lt g hg, u8_lt b hb, col_rgbColor r g b hr hg hb, spec_rgb p r g b hp]
+
+theorem int_refines_legacy (cfg : Cfg) (hc : Covers cfg) (hl1 : ∀ p, p = 38 ∨ p = 48 → cfg.accepts p 1 = true)
+    (s : Style) (q : Seq) (hq : emittableLegacy q = true) :
+    ∃ s', intSgr cfg s q = .ok s' ∧ shown s' = Spec.sgr (shown s) q := by
+  rcases emittableLegacy_cases q hq with h | ⟨p, n, hp, hn, rfl⟩ | ⟨p, r, g, b, hp, hr, hg, hb, rfl⟩
+  · exact int_refines cfg hc s q h
+  · have hp' : p = 38 ∨ p = 48 ∨ p = 58 := by rcases hp with h | h <;> simp [h]
+    obtain ⟨hl, _, _⟩ := hc.ext p hp'
+    refine ⟨_, int_idx_legacy cfg s p n hp' hl (hl1 p hp), ?_⟩
+    rw [shown_setCol p hp', u8_lt n hn, col_indexColor n hn, spec_idx_legacy p n hp']
+  · have hp' : p = 38 ∨ p = 48 ∨ p = 58 := by rcases hp with h | h <;> simp [h]
+    obtain ⟨hl, _, _⟩ := hc.ext p hp'
+    refine ⟨_, int_rgb_legacy cfg s p r g b hp' hl (hl1 p hp), ?_⟩
+    rw [shown_setCol p hp', u8_lt r hr, u8_lt g hg, u8_lt b hb, col_rgbColor r g b hr hg hb, spec_rgb_legacy p r g b hp']
+
+/-! ## Well-formedness is preserved -/
+
+theorem wf_setBits (a b m : Nat) (ha : a &&& m = a) (hb : b &&& m = b) : setBits a b &&& m = setBits a b := by
+  unfold setBits; rw [Nat.and_or_distrib_right, ha, hb]
+theorem wf_clearBits (a b m : Nat) (ha : a &&& m = a) : clearBits a b &&& m = clearBits a b := by
+  unfold clearBits
+  have : (a &&& b) &&& m = a &&& b := by rw [Nat.and_assoc, Nat.and_comm b m, ← Nat.and_assoc, ha]
+  rw [Nat.and_xor_distrib_right, ha, this]
+
+theorem wf_index (n : Nat) : Color.wf (indexColor (u8 n)) := Or.inr (Or.inl ⟨u8 n, Nat.mod_lt _ (by decide), rfl⟩)
+theorem wf_rgb (r g b : Nat) : Color.wf (rgbColor (u8 r) (u8 g) (u8 b)) :=
+  Or.inr (Or.inr ⟨u8 r, u8 g, u8 b, Nat.mod_lt _ (by decide), Nat.mod_lt _ (by decide), Nat.mod_lt _ (by decide), rfl⟩)
+
+theorem ite_ind {α : Type} {P : α → Prop} (c : Prop) [Decidable c] (a b : α) (ha : c → P a) (hb : ¬c → P b) :
+    P (if c then a else b) := by
+  split
+  · exact ha ‹_›
+  · exact hb ‹_›
+
+theorem wf_simple (s : Style) (hs : s.wf) (p : Nat) : (simple p s).wf := by
+  unfold simple
+  repeat' (refine ite_ind (P := Style.wf) _ _ _ (fun _ => ?_) (fun _ => ?_))
+  · exact ⟨Or.inl rfl, Or.inl rfl, Or.inl rfl, (by decide : SgrCases.UnderlineOff ≤ 5), (by decide : 0 &&& allAttrs = 0)⟩
+  · exact ⟨hs.fg, hs.bg, hs.ul, hs.ulStyle, wf_setBits _ _ _ hs.attr (by decide)⟩
+  · exact ⟨hs.fg, hs.bg, hs.ul, hs.ulStyle, wf_setBits _ _ _ hs.attr (by decide)⟩
+  · exact ⟨hs.fg, hs.bg, hs.ul, hs.ulStyle, wf_setBits _ _ _ hs.attr (by decide)⟩
+  · exact ⟨hs.fg, hs.bg, hs.ul, hs.ulStyle, wf_setBits _ _ _ hs.attr (by decide)⟩
+  · exact ⟨hs.fg, hs.bg, hs.ul, hs.ulStyle, wf_setBits _ _ _ hs.attr (by decide)⟩
+  · exact ⟨hs.fg, hs.bg, hs.ul, hs.ulStyle, wf_setBits _ _ _ hs.attr (by decide)⟩
+  · exact ⟨hs.fg, hs.bg, hs.ul, hs.ulStyle, wf_setBits _ _ _ hs.attr (by decide)⟩
+  · exact ⟨hs.fg, hs.bg, hs.ul, hs.ulStyle, wf_clearBits _ _ _ (wf_clearBits _ _ _ hs.attr)⟩
+  · exact ⟨hs.fg, hs.bg, hs.ul, hs.ulStyle, wf_clearBits _ _ _ hs.attr⟩
+  · exact ⟨hs.fg, hs.bg, hs.ul, (by decide : SgrCases.UnderlineOff ≤ 5), hs.attr⟩
+  · exact ⟨hs.fg, hs.bg, hs.ul, hs.ulStyle, wf_clearBits _ _ _ hs.attr⟩
+  · exact ⟨hs.fg, hs.bg, hs.ul, hs.ulStyle, wf_clearBits _ _ _ hs.attr⟩
+  · exact ⟨hs.fg, hs.bg, hs.ul, hs.ulStyle, wf_clearBits _ _ _ hs.attr⟩
+  · exact ⟨hs.fg, hs.bg, hs.ul, hs.ulStyle, wf_clearBits _ _ _ hs.attr⟩
+  · exact ⟨wf_index _, hs.bg, hs.ul, hs.ulStyle, hs.attr⟩
+  · exact ⟨Or.inl rfl, hs.bg, hs.ul, hs.ulStyle, hs.attr⟩
+  · exact ⟨hs.fg, wf_index _, hs.ul, hs.ulStyle, hs.attr⟩
+  · exact ⟨hs.fg, Or.inl rfl, hs.ul, hs.ulStyle, hs.attr⟩
+  · exact ⟨hs.fg, hs.bg, Or.inl rfl, hs.ulStyle, hs.attr⟩
+  · exact ⟨wf_index _, hs.bg, hs.ul, hs.ulStyle, hs.attr⟩
+  · exact ⟨hs.fg, wf_index _, hs.ul, hs.ulStyle, hs.attr⟩
+  · exact hs
+
+theorem wf_setCol (p : Nat) (s : Style) (c : Color) (hs : s.wf) (hc : Color.wf c) : (setCol p s c).wf := by
+  unfold setCol
+  repeat' (refine ite_ind (P := Style.wf) _ _ _ (fun _ => ?_) (fun _ => ?_))
+  · exact ⟨hc, hs.bg, hs.ul, hs.ulStyle, hs.attr⟩
+  · exact ⟨hs.fg, hc, hs.ul, hs.ulStyle, hs.attr⟩
+  · exact ⟨hs.fg, hs.bg, hc, hs.ulStyle, hs.attr⟩
+
+/-- On the producers' range an `[][]int` consumer whose labels cover it keeps styles well formed. -/
+theorem int_wf (cfg : Cfg) (hc : Covers cfg) (hl1 : ∀ p, p = 38 ∨ p = 48 → cfg.accepts p 1 = true)
+    (s : Style) (hs : s.wf) (q : Seq) (hq : emittableLegacy q = true) (s' : Style) (h : intSgr cfg s q = .ok s') : s'.wf := by
+  rcases emittableLegacy_cases q hq with hq | ⟨p, n, hp, hn, rfl⟩ | ⟨p, r, g, b, hp, hr, hg, hb, rfl⟩
+  · rcases emittable_cases q hq with rfl | ⟨p, hp, rfl⟩ | ⟨n, hn, rfl⟩ | ⟨p, n, hp, hn, rfl⟩ | ⟨p, r, g, b, hp, hr, hg, hb, rfl⟩
+    · rw [int_empty cfg s hc.zero] at h; cases h; exact wf_simple s hs 0
+    · by_cases h4 : p = 4
+      · subst h4
+        rw [int_ul1 cfg s (hc.solo 4 hp) hc.ul1] at h; cases h
+        exact ⟨hs.fg, hs.bg, hs.ul, (by decide : SgrCases.UnderlineSingle ≤ 5), hs.attr⟩
+      · obtain ⟨h38, h48, h58⟩ := solo_ne p hp
+        rw [int_solo cfg s p (hc.solo p hp) h38 h48 h58 h4] at h; cases h
+        exact wf_simple s hs p
+    · rw [int_ul2 cfg s n (hc.solo 4 (by decide)) hc.ul2 (hc.subs n hn)] at h; cases h
+      exact ⟨hs.fg, hs.bg, hs.ul, (by rw [ulConst_le n hn]; exact hn : ulConst n ≤ 5), hs.attr⟩
+    · obtain ⟨hl, h3, _⟩ := hc.ext p hp
+      rw [int_idx cfg s p n hp hl h3] at h; cases h
+      exact wf_setCol p s _ hs (wf_index n)
+    · obtain ⟨hl, _, h5⟩ := hc.ext p hp
+      rw [int_rgb cfg s p r g b hp hl h5] at h; cases h
+      exact wf_setCol p s _ hs (wf_rgb r g b)
+  · have hp' : p = 38 ∨ p = 48 ∨ p = 58 := by rcases hp with h | h <;> simp [h]
+    obtain ⟨hl, _, _⟩ := hc.ext p hp'
+    rw [int_idx_legacy cfg s p n hp' hl (hl1 p hp)] at h; cases h
+    exact wf_setCol p s _ hs (wf_index n)
+  · have hp' : p = 38 ∨ p = 48 ∨ p = 58 := by rcases hp with h | h <;> simp [h]
+    obtain ⟨hl, _, _⟩ := hc.ext p hp'
+    rw [int_rgb_legacy cfg s p r g b hp' hl (hl1 p hp)] at h; cases h
+    exact wf_setCol p s _ hs (wf_rgb r g b)
+
+/-! ## `shown` is injective on well-formed styles -/
+
+theorem col_wf_cases (c : Color) (h : Color.wf c) :
+    (c = 0 ∧ col c = .default) ∨ (∃ i, i < 256 ∧ c = indexColor i ∧ col c = .idx i) ∨
+    (∃ r g b, r < 256 ∧ g < 256 ∧ b < 256 ∧ c = rgbColor r g b ∧ col c = .rgb r g b) := by
+  rcases h with rfl | ⟨i, hi, rfl⟩ | ⟨r, g, b, hr, hg, hb, rfl⟩
+  · exact Or.inl ⟨rfl, col_zero⟩
+  · exact Or.inr (Or.inl ⟨i, hi, rfl, col_indexColor i hi⟩)
+  · exact Or.inr (Or.inr ⟨r, g, b, hr, hg, hb, rfl, col_rgbColor r g b hr hg hb⟩)
+
+theorem col_inj (c d : Color) (hc : Color.wf c) (hd : Color.wf d) (h : col c = col d) : c = d := by
+  rcases col_wf_cases c hc with ⟨hc0, e1⟩ | ⟨i, _, hci, e1⟩ | ⟨r, g, b, _, _, _, hcr, e1⟩ <;>
+  rcases col_wf_cases d hd with ⟨hd0, e2⟩ | ⟨j, _, hdj, e2⟩ | ⟨r', g', b', _, _, _, hdr, e2⟩ <;>
+  rw [e1, e2] at h
+  · rw [hc0, hd0]
+  · cases h
+  · cases h
+  · cases h
+  · cases h; rw [hci, hdj]
+  · cases h
+  · cases h
+  · cases h
+  · cases h; rw [hcr, hdr]
+
+theorem allAttrs_bits (i : Nat) (h : allAttrs.testBit i = true) : 1 ≤ i ∧ i ≤ 7 := by
+  by_cases h8 : i < 8
+  · have : i = 0 ∨ i = 1 ∨ i = 2 ∨ i = 3 ∨ i = 4 ∨ i = 5 ∨ i = 6 ∨ i = 7 := by omega
+    rcases this with rfl | rfl | rfl | rfl | rfl | rfl | rfl | rfl <;> first | omega | (revert h; decide)
+  · have hlt : allAttrs < 2 ^ i := by
+      have h1 : allAttrs < 2 ^ 8 := by decide
+      have h2 : 2 ^ 8 ≤ 2 ^ i := Nat.pow_le_pow_right (by decide) (by omega)
+      omega
+    rw [Nat.testBit_lt_two_pow hlt] at h; cases h
+
+theorem attr_inj (a b : Nat) (ha : a &&& allAttrs = a) (hb : b &&& allAttrs = b)
+    (h : ∀ i, 1 ≤ i → i ≤ 7 → a.testBit i = b.testBit i) : a = b := by
+  apply Nat.eq_of_testBit_eq
+  intro i
+  by_cases hi : 1 ≤ i ∧ i ≤ 7
+  · exact h i hi.1 hi.2
+  · have hf : allAttrs.testBit i = false := by
+      cases hx : allAttrs.testBit i
+      · rfl
+      · exact absurd (allAttrs_bits i hx) hi
+    rw [← ha, ← hb, Nat.testBit_and, Nat.testBit_and, hf]; simp
+
+theorem shown_inj (s s' : Style) (hs : s.wf) (hs' : s'.wf) (h : shown s = shown s') : s = s' := by
+  obtain ⟨fg, bg, ul, us, a⟩ := s
+  obtain ⟨fg', bg', ul', us', a'⟩ := s'
+  simp only [shown, TStyle.mk.injEq, has_bold, has_dim, has_italic, has_blink, has_reverse, has_invisible, has_strike] at h
+  obtain ⟨h1, h2, h3, h4, b1, b2, b3, b4, b5, b6, b7⟩ := h
+  have e1 := col_inj fg fg' hs.fg hs'.fg h1
+  have e2 := col_inj bg bg' hs.bg hs'.bg h2
+  have e3 := col_inj ul ul' hs.ul hs'.ul h3
+  have e5 : a = a' := attr_inj a a' hs.attr hs'.attr (by
+    intro i h1 h7
+    have : i = 1 ∨ i = 2 ∨ i = 3 ∨ i = 4 ∨ i = 5 ∨ i = 6 ∨ i = 7 := by omega
+    rcases this with rfl | rfl | rfl | rfl | rfl | rfl | rfl <;> assumption)
+  subst e1 e2 e3 h4 e5
+  rfl
+
+/-! ## The producers' range -/
+
+theorem params_cases' (c : Color) :
+    params c = [] ∨ (∃ i, i < 256 ∧ params c = [i]) ∨
+    (∃ r g b, r < 256 ∧ g < 256 ∧ b < 256 ∧ params c = [r, g, b]) := by
+  unfold params
+  split
+  · exact Or.inr (Or.inl ⟨c % 256, Nat.mod_lt _ (by decide), rfl⟩)
+  split
+  · exact Or.inr (Or.inr ⟨_, _, _, Nat.mod_lt _ (by decide), Nat.mod_lt _ (by decide), Nat.mod_lt _ (by decide), rfl⟩)
+  · exact Or.inl rfl
+
+theorem em_basic (k i : Nat) (hk : k = 30 ∨ k = 40 ∨ k = 90 ∨ k = 100) (hi : i < 8) : emittable [[k + i]] = true := by
+  rcases hk with rfl | rfl | rfl | rfl <;>
+  rcases lt8 i hi with rfl | rfl | rfl | rfl | rfl | rfl | rfl | rfl <;> decide
+
+theorem em_idx (p n : Nat) (hp : p = 38 ∨ p = 48 ∨ p = 58) (hn : n < 256) : emittable [[p, 5, n]] = true := by
+  rcases hp with rfl | rfl | rfl <;> simp [emittable, isExt, hn]
+theorem em_rgb (p r g b : Nat) (hp : p = 38 ∨ p = 48 ∨ p = 58) (hr : r < 256) (hg : g < 256) (hb : b < 256) :
+    emittable [[p, 2, r, g, b]] = true := by
+  rcases hp with rfl | rfl | rfl <;> simp [emittable, isExt, hr, hg, hb]
+theorem eml_of_em (q : Seq) (h : emittable q = true) : emittableLegacy q = true := by
+  unfold emittableLegacy; rw [h]; rfl
+theorem eml_idx (p n : Nat) (hp : p = 38 ∨ p = 48) (hn : n < 256) : emittableLegacy [[p], [5], [n]] = true := by
+  rcases hp with rfl | rfl <;> simp [emittableLegacy, emittable, hn]
+theorem eml_rgb (p r g b : Nat) (hp : p = 38 ∨ p = 48) (hr : r < 256) (hg : g < 256) (hb : b < 256) :
+    emittableLegacy [[p], [2], [r], [g], [b]] = true := by
+  rcases hp with rfl | rfl <;> simp [emittableLegacy, emittable, hr, hg, hb]
+
+theorem fg_range (legacy : Bool) (c : Color) :
+    ∀ x ∈ colourSeq Sequences.fgReset_t Sequences.fgSet_t Sequences.fgBrightSet_t
+      (q legacy Sequences.fgIndexSet_t) (q legacy Sequences.fgRGBSet_t) c, emittableLegacy x = true := by
+  intro x hx
+  unfold colourSeq at hx
+  rcases params_cases' c with h | ⟨i, hi, h⟩ | ⟨r, g, b, hr, hg, hb, h⟩
+  · rw [h] at hx; simp only [fmt_fgReset, List.mem_singleton] at hx; subst hx; decide
+  · rw [h] at hx; simp only [] at hx
+    by_cases h8 : i < 8
+    · simp only [h8, if_true, fmt_fgSet i h8, List.mem_singleton] at hx; subst hx
+      exact eml_of_em _ (em_basic 30 i (by simp) h8)
+    · by_cases h16 : i < 16
+      · have h' : i - 8 < 8 := by omega
+        simp only [h8, h16, if_true, if_false, fmt_fgBrightSet _ h', List.mem_singleton] at hx; subst hx
+        exact eml_of_em _ (em_basic 90 _ (by simp) h')
+      · simp only [h8, h16, if_false, List.mem_singleton] at hx; subst hx
+        cases legacy
+        · simp only [q, Bool.false_eq_true, ↓reduceIte, fmt_fgIndexSet]; exact eml_of_em _ (em_idx 38 i (by simp) hi)
+        · simp only [q, ↓reduceIte, fmt_fgIndexSet_legacy]; exact eml_idx 38 i (by simp) hi
+  · rw [h] at hx; simp only [List.mem_singleton] at hx; subst hx
+    cases legacy
+    · simp only [q, Bool.false_eq_true, ↓reduceIte, fmt_fgRGBSet]; exact eml_of_em _ (em_rgb 38 r g b (by simp) hr hg hb)
+    · simp only [q, ↓reduceIte, fmt_fgRGBSet_legacy]; exact eml_rgb 38 r g b (by simp) hr hg hb
+
+theorem bg_range (legacy : Bool) (c : Color) :
+    ∀ x ∈ colourSeq Sequences.bgReset_t Sequences.bgSet_t Sequences.bgBrightSet_t
+      (q legacy Sequences.bgIndexSet_t) (q legacy Sequences.bgRGBSet_t) c, emittableLegacy x = true := by
+  intro x hx
+  unfold colourSeq at hx
+  rcases params_cases' c with h | ⟨i, hi, h⟩ | ⟨r, g, b, hr, hg, hb, h⟩
+  · rw [h] at hx; simp only [fmt_bgReset, List.mem_singleton] at hx; subst hx; decide
+  · rw [h] at hx; simp only [] at hx
+    by_cases h8 : i < 8
+    · simp only [h8, if_true, fmt_bgSet i h8, List.mem_singleton] at hx; subst hx
+      exact eml_of_em _ (em_basic 40 i (by simp) h8)
+    · by_cases h16 : i < 16
+      · have h' : i - 8 < 8 := by omega
+        simp only [h8, h16, if_true, if_false, fmt_bgBrightSet _ h', List.mem_singleton] at hx; subst hx
+        exact eml_of_em _ (em_basic 100 _ (by simp) h')
+      · simp only [h8, h16, if_false, List.mem_singleton] at hx; subst hx
+        cases legacy
+        · simp only [q, Bool.false_eq_true, ↓reduceIte, fmt_bgIndexSet]; exact eml_of_em _ (em_idx 48 i (by simp) hi)
+        · simp only [q, ↓reduceIte, fmt_bgIndexSet_legacy]; exact eml_idx 48 i (by simp) hi
+  · rw [h] at hx; simp only [List.mem_singleton] at hx; subst hx
+    cases legacy
+    · simp only [q, Bool.false_eq_true, ↓reduceIte, fmt_bgRGBSet]; exact eml_of_em _ (em_rgb 48 r g b (by simp) hr hg hb)
+    · simp only [q, ↓reduceIte, fmt_bgRGBSet_legacy]; exact eml_rgb 48 r g b (by simp) hr hg hb
+
+theorem ul_range (c : Color) : ∀ x ∈ ulColourSeq c, emittable x = true := by
+  intro x hx
+  unfold ulColourSeq at hx
+  rcases params_cases' c with h | ⟨i, hi, h⟩ | ⟨r, g, b, hr, hg, hb, h⟩
+  · rw [h] at hx; simp only [fmt_ulColorReset, List.mem_singleton] at hx; subst hx; decide
+  · rw [h] at hx; simp only [fmt_ulIndexSet, List.mem_singleton] at hx; subst hx; exact em_idx 58 i (by simp) hi
+  · rw [h] at hx; simp only [fmt_ulRGBSet, List.mem_singleton] at hx; subst hx; exact em_rgb 58 r g b (by simp) hr hg hb
+
+theorem mem_opt (x y : Seq) (c : Bool) (h : x ∈ opt c y) : x = y := by
+  cases c <;> simp [opt] at h; exact h
+
+theorem attr_range (a b : Nat) : ∀ x ∈ attrDelta a b, emittable x = true := by
+  intro x hx
+  unfold attrDelta at hx
+  split at hx
+  · unfold attrBody at hx
+    simp only [boldSetQ_eq, dimSetQ_eq, italicSetQ_eq, blinkSetQ_eq, reverseSetQ_eq, hiddenSetQ_eq,
+      strikethroughSetQ_eq, boldDimResetQ_eq, italicResetQ_eq, blinkResetQ_eq, reverseResetQ_eq, hiddenResetQ_eq,
+      strikethroughResetQ_eq, List.mem_append] at hx
+    rcases hx with h | h | h | h | h | h | h | h | h | h | h | h | h | h
+    all_goals first
+      | (have := mem_opt _ _ _ h; subst this; decide)
+      | (split at h
+         · rcases List.mem_cons.mp h with rfl | h'
+           · decide
+           · have := mem_opt _ _ _ h'; subst this; decide
+         · cases h)
+  · cases hx
+
+
+theorem encodeDelta_range (legacy : Bool) (p n : Style) (hn : n.ulStyle ≤ 5) :
+    ∀ x ∈ encodeDelta legacy p n, emittableLegacy x = true := by
+  intro x hx
+  unfold encodeDelta at hx
+  simp only [List.mem_append] at hx
+  rcases hx with h | h | h | h | h
+  · split at h
+    · exact fg_range legacy _ x h
+    · cases h
+  · split at h
+    · exact bg_range legacy _ x h
+    · cases h
+  · split at h
+    · exact eml_of_em _ (ul_range _ x h)
+    · cases h
+  · exact eml_of_em _ (attr_range _ _ x h)
+  · split at h
+    · simp only [fmt_ulStyleSet, List.mem_singleton] at h; subst h
+      exact eml_of_em _ (by simp [emittable, hn])
+    · cases h
+
+/-- Applying a consumer to a list of sequences, one after the other. -/
+def foldC (f : Style → Seq → Except Panic Style) : Style → List Seq → Except Panic Style
+  | s, [] => .ok s
+  | s, x :: l =>
+    match f s x with
+    | .ok s' => foldC f s' l
+    | .error e => .error e
+
+theorem parseToks_sgrs {γ : Type} (f : Style → Seq → Except Panic Style) (l : List Seq) (rest : List (Tok Seq γ)) :
+    ∀ s, parseToks f s (l.map Tok.sgr ++ rest) =
+      match foldC f s l with
+      | .ok s' => parseToks f s' rest
+      | .error e => .error e := by
+  induction l with
+  | nil => intro s; rfl
+  | cons x l ih =>
+    intro s
+    simp only [List.map_cons, List.cons_append, parseToks, foldC]
+    cases f s x with
+    | error e => rfl
+    | ok s' => exact ih s'
+
+theorem fold_refines (cfg : Cfg) (hc : Covers cfg) (hl1 : ∀ p, p = 38 ∨ p = 48 → cfg.accepts p 1 = true)
+    (l : List Seq) (hl : ∀ x ∈ l, emittableLegacy x = true) :
+    ∀ s, s.wf → ∃ s', foldC (intSgr cfg) s l = .ok s' ∧ s'.wf ∧ shown s' = apply (shown s) l := by
+  induction l with
+  | nil => intro s hs; exact ⟨s, rfl, hs, rfl⟩
+  | cons x l ih =>
+    intro s hs
+    obtain ⟨s1, h1, e1⟩ := int_refines_legacy cfg hc hl1 s x (hl x (List.mem_cons_self ..))
+    have w1 := int_wf cfg hc hl1 s hs x (hl x (List.mem_cons_self ..)) s1 h1
+    obtain ⟨s2, h2, w2, e2⟩ := ih (fun y hy => hl y (List.mem_cons_of_mem _ hy)) s1 w1
+    refine ⟨s2, ?_, w2, ?_⟩
+    · simp only [foldC, h1, h2]
+    · rw [e2, e1]; rfl
+
+theorem delta_roundtrip (cfg : Cfg) (hc : Covers cfg) (hl1 : ∀ p, p = 38 ∨ p = 48 → cfg.accepts p 1 = true)
+    (legacy : Bool) (s n : Style) (hs : s.wf) (hn : n.wf) :
+    foldC (intSgr cfg) s (encodeDelta legacy s n) = .ok n := by
+  obtain ⟨s', h, w, e⟩ := fold_refines cfg hc hl1 _ (encodeDelta_range legacy s n hn.ulStyle) s hs
+  rw [encodeDelta_correct legacy s n hn.ulStyle] at e
+  rw [h, shown_inj s' n w hn e]
+
+theorem wf_default : Style.wf {} :=
+  ⟨Or.inl rfl, Or.inl rfl, Or.inl rfl, (by decide : (0 : Nat) ≤ 5), (by decide : 0 &&& allAttrs = 0)⟩
+
+theorem roundtrip_generic {γ : Type} (f : Style → Seq → Except Panic Style) (delta : Style → Style → List Seq)
+    (hdelta : ∀ s n, s.wf → n.wf → foldC f s (delta s n) = .ok n)
+    (hreset : ∀ s, ∃ s', f s [] = .ok s') :
+    ∀ (cs : List (Cell γ)) (s : Style), s.wf → (∀ c ∈ cs, c.st.wf) →
+      parseToks f s (encodeFrom delta s cs) = .ok cs := by
+  intro cs
+  induction cs with
+  | nil =>
+    intro s _ _
+    unfold encodeFrom
+    split
+    · obtain ⟨s', h⟩ := hreset s
+      simp only [sgrResetQ_eq, parseToks, h]
+    · rfl
+  | cons c cs ih =>
+    intro s hs hcs
+    have hc : c.st.wf := hcs c (List.mem_cons_self ..)
+    unfold encodeFrom
+    rw [parseToks_sgrs, hdelta s c.st hs hc]
+    simp only [parseToks, ih c.st hc (fun d hd => hcs d (List.mem_cons_of_mem _ hd))]
+
 end VaxisModel.Lemmas.Sgr
